@@ -666,7 +666,14 @@ pub(crate) fn shr(lhs: Number, rhs: Number, arena: &mut Arena) -> Result<Number,
                 }
             };
 
-            Ok(Number::arena_from(Integer::from(&*lhs >> rhs), arena))
+            let mut res = Integer::from(&*lhs >> rhs);
+
+            // shifting out every bit of a negative bignum must give -1 (floor), not 0
+            if res.is_zero() && Signed::is_negative(&*lhs) {
+                res = Integer::from(-1);
+            }
+
+            Ok(Number::arena_from(res, arena))
         }
         other => Err(numerical_type_error(ValidType::Integer, other, stub_gen)),
     }
